@@ -17,12 +17,12 @@ import (
 // ---------------------------------------------------------------------------
 
 type C18Spec struct {
-	Char   *CharCfg  `json:"char,omitempty"`
-	WL     *WLCfg    `json:"wl,omitempty"`
-	ASCII  bool      `json:"ascii,omitempty"` // untainted configuration: weaker window rule
+	Char   *CharCfg   `json:"char,omitempty"`
+	WL     *WLCfg     `json:"wl,omitempty"`
+	ASCII  bool       `json:"ascii,omitempty"` // untainted configuration: weaker window rule
 	Knobs  [2]float64 `json:"knobs"`           // MaxTrials, MaxFailRate
-	Orders OrderSpec `json:"orders"`
-	Seed   uint64    `json:"seed"`
+	Orders OrderSpec  `json:"orders"`
+	Seed   uint64     `json:"seed"`
 }
 
 var diagTemplates = []*regexp.Regexp{
@@ -35,8 +35,8 @@ var diagTemplates = []*regexp.Regexp{
 func init() {
 	register(&CheckDef{
 		ID: "C18", Level: "exploration",
-		Technique: "deterministic simulation with an output monitor: fd 1, fd 2, the process log and returned error/panic texts are captured around every operation of tainted configurations (successful, retried, refused, exhausted and read-faulted generations; rejected candidates known exactly from the choice tape) and searched for any secret rune",
-		Rule:      "case = one monitored operation (Generate, Entropy, SuccessProbability, Alphabet, NewWordList) with its captured output; distinct by hash of (configuration, operation, stream kind); non-trivial = the operation drew at least one random choice or was refused / faulted",
+		Technique:   "deterministic simulation with an output monitor: fd 1, fd 2, the process log and returned error/panic texts are captured around every operation of tainted configurations (successful, retried, refused, exhausted and read-faulted generations; rejected candidates known exactly from the choice tape) and searched for any secret rune",
+		Rule:        "case = one monitored operation (Generate, Entropy, SuccessProbability, Alphabet, NewWordList) with its captured output; distinct by hash of (configuration, operation, stream kind); non-trivial = the operation drew at least one random choice or was refused / faulted",
 		Assumptions: []string{"tainted rule: alphabets, words and separators consist only of runes that occur in no library diagnostic, so any such rune in the output is a leak (no length threshold)", "ASCII configurations use the weaker rule: no window of 8 characters of a password or rejected candidate and no synthetic word of 5 or more letters in the output", "returned error strings and panic texts are monitored too (the statement: the returned Password is the only place the secret appears)"},
 		Episodes:    map[string]int{"quick": 16000, "thorough": 8000000},
 		TwiceEvery:  7,
